@@ -144,6 +144,8 @@ pub struct WorkerArgs {
     pub only: Option<u64>,
     pub trace: bool,
     pub deadline_s: f64,
+    /// stop after the first run whose index is greater than this (segment replay)
+    pub until: Option<u64>,
 }
 
 fn emit(line: &str) {
@@ -236,6 +238,11 @@ pub fn worker_main(a: WorkerArgs) {
         emit(&format!("B {}", i));
         let e = run_index(&a, &env, i);
         emit(&format!("E {} {}", i, e));
+        if let Some(u) = a.until {
+            if i > u {
+                break;
+            }
+        }
         i += a.w;
     }
     emit("D");
